@@ -963,14 +963,14 @@ Section InsRoot.
   Variable empty : nlabel.
   Hypothesis Ce : canonical empty = false.
 
-  Theorem ins_root latest root s e :
-    root_inv latest root -> latest < e -> good_set s -> eset_list s <> [] -> set_ok [] (eset_list s) ->
+  (* the tree may already hold leaves of the epoch being inserted (sub-batches of one epoch) *)
+  Theorem ins_root_le latest root s e :
+    root_inv latest root -> latest <= e -> 1 <= e -> good_set s -> eset_list s <> [] -> set_ok [] (eset_list s) ->
     (forall x y, In x (eset_list s) -> In y (leaves root) -> e_label x <> lf_label y) ->
     exists r isn k, ins empty ins_fuel (Some root) s e = Some (r, isn, k) /\
                     canon_root r /\ Permutation (leaves r) (leaves root ++ map (lf_of e) (eset_list s)).
   Proof.
-    intros [Hc Hl] Hlt Hg Hne Hso Hdis. set (S := eset_list s) in *.
-    assert (He : 1 <= e) by lia.
+    intros [Hc Hl] Hlt He Hg Hne Hso Hdis. set (S := eset_list s) in *.
     destruct root as [|l le mde a b]; [destruct Hc|]. destruct Hc as (-> & Ca & Cb & Ele & Emde).
     assert (Hla : leaves_ok e (oleaves a)).
     { apply (leaves_ok_mono latest e); [lia|]. intros z Hz. apply Hl. cbn [leaves]. apply in_or_app. left. destruct a; [exact Hz | destruct Hz]. }
@@ -1085,6 +1085,13 @@ Section InsRoot.
           (eapply Permutation_trans; [apply perm_shuffle|]); apply Permutation_app_head; apply sides_perm;
           intros x Hx; rewrite <- bits_of_root; apply Hnn; exact Hx.
   Qed.
+
+  Theorem ins_root latest root s e :
+    root_inv latest root -> latest < e -> good_set s -> eset_list s <> [] -> set_ok [] (eset_list s) ->
+    (forall x y, In x (eset_list s) -> In y (leaves root) -> e_label x <> lf_label y) ->
+    exists r isn k, ins empty ins_fuel (Some root) s e = Some (r, isn, k) /\
+                    canon_root r /\ Permutation (leaves r) (leaves root ++ map (lf_of e) (eset_list s)).
+  Proof. intros Hr Hlt. apply (ins_root_le latest root s e Hr); lia. Qed.
 End InsRoot.
 
 (* ------------------------------------------------------------------ batches and histories *)
@@ -1098,17 +1105,18 @@ Section Batches.
   Variable empty : nlabel.
   Hypothesis Ce : canonical empty = false.
 
-  Theorem batch_insert_spec root latest num elems :
-    root_inv latest root -> batch_ok elems ->
+  (* [bound]: the newest leaf the tree may already hold - at most the epoch about to be inserted *)
+  Theorem batch_insert_spec_gen root latest bound num elems :
+    root_inv bound root -> bound <= latest + 1 -> batch_ok elems ->
     (forall x y, In x elems -> In y (leaves root) -> e_label x <> lf_label y) ->
     exists r num', batch_insert empty (root, latest, num) elems = Some (r, latest + 1, num') /\
                    root_inv (latest + 1) r /\
                    Permutation (leaves r) (leaves root ++ map (lf_of (latest + 1)) elems).
   Proof.
-    intros [Hc Hl] Hb Hdis. unfold batch_insert.
+    intros [Hc Hl] Hbound Hb Hdis. unfold batch_insert.
     destruct elems as [|x0 r0] eqn:EE.
     - cbn [eset_from eset_is_empty eset_list]. exists root, num. split; [reflexivity|]. split.
-      + split; [exact Hc | apply (leaves_ok_mono latest); [lia | exact Hl]].
+      + split; [exact Hc | apply (leaves_ok_mono bound); [lia | exact Hl]].
       + cbn [map]. rewrite app_nil_r. apply Permutation_refl.
     - rewrite <- EE in *. assert (Hne : elems <> []) by (rewrite EE; discriminate).
       destruct (eset_from_good elems Hne Hb) as [Hg HP].
@@ -1122,16 +1130,105 @@ Section Batches.
       { apply (set_ok_perm [] _ elems HP). destruct Hb as (B1 & B2 & B3). repeat split; try assumption; try (apply B1; assumption). }
       assert (Hdis' : forall x y, In x (eset_list s) -> In y (leaves root) -> e_label x <> lf_label y).
       { intros x y Hx Hy. apply Hdis; [eapply Permutation_in; eassumption | exact Hy]. }
-      destruct (ins_root empty Ce latest root s (latest + 1) (conj Hc Hl) ltac:(lia) Hg HneS Hso Hdis') as (r & isn & k & EI & Cr & Pr).
+      destruct (ins_root_le empty Ce bound root s (latest + 1) (conj Hc Hl) Hbound ltac:(lia) Hg HneS Hso Hdis') as (r & isn & k & EI & Cr & Pr).
       rewrite EI. exists r, (num + k). split; [reflexivity|].
       assert (Pfinal : Permutation (leaves r) (leaves root ++ map (lf_of (latest + 1)) elems)).
       { eapply Permutation_trans; [exact Pr|]. apply Permutation_app_head. apply Permutation_map. exact HP. }
       split; [|exact Pfinal]. split; [exact Cr|].
       apply (leaves_ok_perm _ _ _ Pfinal). apply leaves_ok_app.
-      + apply (leaves_ok_mono latest); [lia | exact Hl].
+      + apply (leaves_ok_mono bound); [lia | exact Hl].
       + apply leaves_ok_new; [lia | apply Hb].
   Qed.
 
+  Theorem batch_insert_spec root latest num elems :
+    root_inv latest root -> batch_ok elems ->
+    (forall x y, In x elems -> In y (leaves root) -> e_label x <> lf_label y) ->
+    exists r num', batch_insert empty (root, latest, num) elems = Some (r, latest + 1, num') /\
+                   root_inv (latest + 1) r /\
+                   Permutation (leaves r) (leaves root ++ map (lf_of (latest + 1)) elems).
+  Proof. intros Hr. apply (batch_insert_spec_gen root latest latest num elems Hr). lia. Qed.
+
+  Lemma nodup_app_left {A} (l1 l2 : list A) : NoDup (l1 ++ l2) -> NoDup l1.
+  Proof.
+    induction l1 as [|a l1 IH]; intros H; [constructor|]. cbn [app] in H. inversion H as [|? ? Hn Hr]; subst.
+    constructor; [intros Hin; apply Hn; apply in_or_app; left; exact Hin | apply IH; exact Hr].
+  Qed.
+  Lemma nodup_app_right {A} (l1 l2 : list A) : NoDup (l1 ++ l2) -> NoDup l2.
+  Proof. induction l1 as [|a l1 IH]; intros H; [exact H|]. cbn [app] in H. inversion H; subst. apply IH. assumption. Qed.
+
+  Lemma batch_ok_app b1 b2 : batch_ok (b1 ++ b2) -> batch_ok b1 /\ batch_ok b2 /\
+    (forall x y, In x b1 -> In y b2 -> e_label x <> e_label y).
+  Proof.
+    intros (B1 & B2 & B3). rewrite map_app in B3.
+    split; [|split].
+    - split; [|split].
+      + intros x Hx. apply B1. apply in_or_app. left. exact Hx.
+      + intros x Hx. apply B2. apply in_or_app. left. exact Hx.
+      + apply nodup_app_left in B3. exact B3.
+    - split; [|split].
+      + intros x Hx. apply B1. apply in_or_app. right. exact Hx.
+      + intros x Hx. apply B2. apply in_or_app. right. exact Hx.
+      + apply nodup_app_right in B3. exact B3.
+    - intros x y Hx Hy E. apply (NoDup_app_disj _ _ (e_label x) B3); [apply in_map; exact Hx | rewrite E; apply in_map; exact Hy].
+  Qed.
+
+  (* C14: one epoch inserted in two pieces (the epoch counter put back in between, which is how a
+     caller inserts sub-batches of one epoch) gives the tree of the single batch *)
+  Theorem batch_insert_split root latest bound num b1 b2 :
+    root_inv bound root -> bound <= latest + 1 -> batch_ok (b1 ++ b2) ->
+    (forall x y, In x (b1 ++ b2) -> In y (leaves root) -> e_label x <> lf_label y) ->
+    exists r1 n1 r n2 n12,
+      batch_insert empty (root, latest, num) b1 = Some (r1, latest + 1, n1) /\
+      batch_insert empty (r1, latest, n1) b2 = Some (r, latest + 1, n2) /\
+      batch_insert empty (root, latest, num) (b1 ++ b2) = Some (r, latest + 1, n12) /\
+      root_inv (latest + 1) r1 /\
+      (forall x y, In x b2 -> In y (leaves r1) -> e_label x <> lf_label y).
+  Proof.
+    intros Hinv Hbound Hb Hdis. destruct (batch_ok_app b1 b2 Hb) as (Hb1 & Hb2 & Hd12).
+    destruct (batch_insert_spec_gen root latest bound num b1 Hinv Hbound Hb1) as (r1 & n1 & E1 & I1 & P1).
+    { intros x y Hx. apply Hdis. apply in_or_app. left. exact Hx. }
+    assert (Hdis2 : forall x y, In x b2 -> In y (leaves r1) -> e_label x <> lf_label y).
+    { intros x y Hx Hy. apply (Permutation_in _ P1) in Hy. apply in_app_or in Hy. destruct Hy as [Hy|Hy].
+      - apply Hdis; [apply in_or_app; right; exact Hx | exact Hy].
+      - apply in_map_iff in Hy. destruct Hy as (z & <- & Hz). cbn [lf_of lf_label]. intros E. apply (Hd12 z x Hz Hx). symmetry. exact E. }
+    destruct (batch_insert_spec_gen r1 latest (latest + 1) n1 b2 I1 ltac:(lia) Hb2 Hdis2) as (r & n2 & E2 & I2 & P2).
+    destruct (batch_insert_spec_gen root latest bound num (b1 ++ b2) Hinv Hbound Hb Hdis) as (r12 & n12 & E12 & I12 & P12).
+    exists r1, n1, r, n2, n12. split; [exact E1|]. split; [exact E2|]. split; [|split; [exact I1 | exact Hdis2]].
+    rewrite E12. f_equal. f_equal. f_equal.
+    rewrite <- (canon_root_spec r (proj1 I2)), <- (canon_root_spec r12 (proj1 I12)). unfold sleaves.
+    apply spec_root_perm. apply Permutation_map.
+    eapply Permutation_trans; [exact P12|]. apply Permutation_sym. eapply Permutation_trans; [exact P2|].
+    rewrite map_app, app_assoc. apply Permutation_app_tail. exact P1.
+  Qed.
+
+  (* ... and in any number of pieces *)
+  Fixpoint run_pieces (root : tree) (latest num : N) (ps : list (list elem)) : option (tree * N) :=
+    match ps with
+    | [] => Some (root, num)
+    | p :: rest =>
+      match batch_insert empty (root, latest, num) p with
+      | Some (r, _, n) => run_pieces r latest n rest
+      | None => None
+      end
+    end.
+
+  Theorem pieces_as_one : forall ps root latest bound num,
+    root_inv bound root -> bound <= latest + 1 -> batch_ok (concat ps) ->
+    (forall x y, In x (concat ps) -> In y (leaves root) -> e_label x <> lf_label y) ->
+    exists r n n', run_pieces root latest num ps = Some (r, n) /\
+                   batch_insert empty (root, latest, num) (concat ps) = Some (r, latest + 1, n').
+  Proof.
+    induction ps as [|p rest IH]; intros root latest bound num Hinv Hbound Hb Hdis.
+    - cbn [run_pieces concat]. exists root, num, num. split; reflexivity.
+    - cbn [run_pieces concat] in *.
+      destruct (batch_insert_split root latest bound num p (concat rest) Hinv Hbound Hb Hdis)
+        as (r1 & n1 & r & n2 & n12 & E1 & E2 & E12 & I1 & Hdis2).
+      rewrite E1.
+      destruct (batch_ok_app _ _ Hb) as (_ & Hb2 & _).
+      destruct (IH r1 latest (latest + 1) n1 I1 ltac:(lia) Hb2 Hdis2) as (r' & n & n' & ER & EB).
+      rewrite E2 in EB. injection EB as <- _.
+      exists r, n, n12. split; [exact ER | exact E12].
+  Qed.
   (* a publish history at the tree level: the batches of epochs 1, 2, ... *)
   Fixpoint run_batches (st : tree * N * N) (bs : list (list elem)) : option (tree * N * N) :=
     match bs with
